@@ -111,3 +111,122 @@ Proof.
   destruct (validate _ _ _); cbn [a_out a_pre]; [|discriminate].
   intros Ho. inversion Ho as [Hhh]. rewrite Hhh. reflexivity.
 Qed.
+
+(* ================================================================================================ *)
+(* PROCESS DEATHS inside a production step, and the restart that follows (C01, last sentence: the   *)
+(* node is never left permanently unable to produce blocks).  Histories here are ANY lists of items *)
+(* without hand-made damage ([untampered]): boots, steps, [ICrash a k] = the process dies after k   *)
+(* atomic datastore writes of a boot or step (any k), shutdowns.                                    *)
+(* ================================================================================================ *)
+
+Lemma untampered_app h1 h2 : untampered h1 = true -> untampered h2 = true -> untampered (h1 ++ h2) = true.
+Proof. unfold untampered. intros A B. rewrite forallb_app, A, B. reflexivity. Qed.
+
+(* safety and liveness whenever a process runs, after every history (crashes anywhere) *)
+Theorem running_after_crashes c h :
+  wf_cfg c -> forall v, vol_of (run c h) = Some v ->
+  ChainValid c (run c h) /\
+  forall sq e, wf_resp c (run c h) sq e = true ->
+    a_out (step c (img_of (run c h)) v sq e) = OCommitted (g_height (img_of (run c h)) + 1).
+Proof.
+  intros Hwf v Hv. split; [eapply chain_valid_running; eassumption|].
+  intros sq e Hw. apply no_wedge_all; assumption.
+Qed.
+
+(* a step that commits writes its state and then the store height, as its last two writes *)
+Lemma step_committed_shape c m v sq e n :
+  a_out (step c m v sq e) = OCommitted n ->
+  exists s', a_commit (step c m v sq e) = w_state s' :: set_height m n /\ s_height s' = n.
+Proof.
+  unfold step.
+  destruct (last_info c m (g_height m)) as [[[lsig lhdr] ltime]|]; [|cbn; discriminate].
+  assert (F : forall v0 b ws0 req bu, a_out (finish c m v0 b ws0 req bu e) = OCommitted n ->
+            exists s', a_commit (finish c m v0 b ws0 req bu e) = w_state s' :: set_height m n /\ s_height s' = n).
+  { intros v0 b ws0 req bu. unfold finish. destruct e as [ret|]; [|cbn; discriminate].
+    destruct (validate _ _ _); cbn [a_out a_commit]; [|discriminate].
+    intros Ho. inversion Ho as [Hn]. eexists. split; [reflexivity|reflexivity]. }
+  destruct (g_block m (g_height m + 1)) as [pb|]; [apply F|].
+  destruct sq as [| |txs ts cur]; try (cbn; discriminate).
+  cbv zeta.
+  destruct (_ && _); [cbn; discriminate|].
+  destruct (match ltime with Some lt => (ts <? lt)%Z | None => false end); [cbn; discriminate|].
+  destruct (negb _); [cbn; discriminate|]. apply F.
+Qed.
+
+Lemma firstn_S_length_app {A} (l : list A) (a b : A) : firstn (S (length l)) (l ++ [a; b]) = l ++ [a].
+Proof. induction l as [|x l IH]; [reflexivity|]. simpl. simpl in IH. rewrite IH. reflexivity. Qed.
+
+(* a start-up on a recorded state does not consult InitChain: its answer does not matter *)
+Lemma boot_item_any_init c st ic ic' s :
+  g_state (img_of st) = Some s ->
+  exec_item c st (IRun (ABoot ic)) = exec_item c st (IRun (ABoot ic')).
+Proof.
+  intros Hs. cbn [exec_item do_act]. unfold boot. rewrite Hs.
+  destruct (s_height s <? c_initial c); [reflexivity|].
+  destruct (files_ok st); reflexivity.
+Qed.
+
+(* THE WINDOW BETWEEN THE TWO WRITES OF A COMMIT.  After any history, while a process runs, a well-formed pair of
+   responses commits height H+1 with the writes  pre ++ [state; store height].  If the process dies after the state
+   write and before the height write (k = |pre| + 1) the disk holds the state of H+1 under the store height H.
+   The next start-up — whatever InitChain would answer — succeeds and performs exactly ONE write: it raises the store
+   height to H+1 (block/manager.go NewManager: store.SetHeight(s.LastBlockHeight)); afterwards height, state and
+   blocks agree and a well-formed pair of responses commits H+2 in the very next step. *)
+Theorem torn_commit_restart c h v sq e ic :
+  wf_cfg c -> untampered h = true -> vol_of (run c h) = Some v -> wf_resp c (run c h) sq e = true ->
+  let st := run c h in let H := g_height (img_of st) in
+  let r := step c (img_of st) v sq e in
+  let st1 := run c (h ++ [ICrash (AStep sq e) (S (length (a_pre r)))]) in
+  let r2 := exec_item c st1 (IRun (ABoot ic)) in
+  a_out r = OCommitted (H + 1) /\
+  g_height (img_of st1) = H /\ option_map s_height (g_state (img_of st1)) = Some (H + 1) /\ vol_of st1 = None /\
+  o_res (snd r2) = OBootOk /\ o_ws (snd r2) = [w_height (H + 1)] /\ g_height (img_of (fst r2)) = H + 1 /\
+  exists v', vol_of (fst r2) = Some v' /\ ChainValid c (fst r2) /\
+    forall sq' e', wf_resp c (fst r2) sq' e' = true ->
+      a_out (step c (img_of (fst r2)) v' sq' e') = OCommitted (H + 2).
+Proof.
+  intros Hwf Hu Hv Hw st H r st1 r2.
+  pose proof (no_wedge_all c h Hwf v Hv sq e Hw) as Hout. fold st in Hout. fold H in Hout. fold r in Hout.
+  destruct (reach_inv c h Hwf) as (_ & HR). specialize (HR v Hv). fold st in HR.
+  pose proof (rf_height c _ _ _ _ _ HR) as (_ & Hge). fold H in Hge.
+  destruct (step_committed_shape c _ v sq e _ Hout) as (s' & Hcm & Hs'h). fold r in Hcm.
+  unfold H in Hcm. rewrite set_height_next in Hcm. fold H in Hcm.
+  pose proof (step_spec c Hwf _ _ _ _ v sq e HR) as (_ & Hsafe & _). fold r in Hsafe.
+  assert (HR' : RF c (img_of st) (g_inits st) (log_opt (g_built st) (a_built r)) (g_execs st) (v_state v)).
+  { eapply rf_mono; [apply incl_refl|apply incl_log_opt|apply incl_refl|exact HR]. }
+  destruct (rf_safe_writes c (img_of st) _ _ _ _ (a_pre r) (img_of st) (based_refl _) Hsafe HR') as ((Bh & _ & _) & _).
+  (* the image the dead process leaves *)
+  assert (E1 : st1 = fst (exec_item c st (ICrash (AStep sq e) (S (length (a_pre r)))))).
+  { unfold st1. rewrite run_app. fold st. rewrite run_from_cons. reflexivity. }
+  assert (Hi1 : img_of st1 = apply_write (apply_writes (img_of st) (a_pre r)) (w_state s')).
+  { rewrite E1. cbn [exec_item fst img_of do_act]. change (vol_of st) with (vol_of (run c h)). rewrite Hv. fold st. fold r. unfold crash_after, a_ws.
+    rewrite Hcm, firstn_S_length_app, aws_app. reflexivity. }
+  destruct (aw_state (apply_writes (img_of st) (a_pre r)) s') as (A1 & A2 & _ & _).
+  assert (Hh1 : g_height (img_of st1) = H) by (rewrite Hi1, A1; exact Bh).
+  assert (Hs1 : g_state (img_of st1) = Some s') by (rewrite Hi1; exact A2).
+  assert (Hv1 : vol_of st1 = None) by (rewrite E1; reflexivity).
+  assert (Hu1 : untampered (h ++ [ICrash (AStep sq e) (S (length (a_pre r)))]) = true)
+    by (apply untampered_app; [exact Hu|reflexivity]).
+  assert (Hf1 : files_ok st1 = true) by (apply cache_files_ok_all, Hu1).
+  split; [exact Hout|]. split; [exact Hh1|]. split; [rewrite Hs1; cbn [option_map]; rewrite Hs'h; reflexivity|].
+  split; [exact Hv1|].
+  (* the start-up *)
+  assert (Hb : boot c (img_of st1) true ic =
+               {| a_pre := [w_height (H + 1)]; a_commit := []; a_vol := Some {| v_state := s'; v_cursor := g_cursor (img_of st1) |};
+                  a_out := OBootOk; a_call := None; a_req := None; a_init := None; a_built := None |}).
+  { unfold boot. rewrite Hs1, Hs'h.
+    destruct (N.ltb_spec (H + 1) (c_initial c)) as [Hlt|_]; [lia|].
+    unfold set_height. rewrite Hh1. destruct (N.leb_spec (H + 1) H) as [Hle|_]; [lia|reflexivity]. }
+  assert (Hws : o_ws (snd r2) = [w_height (H + 1)]).
+  { unfold r2. cbn [exec_item snd o_ws do_act]. rewrite Hf1, Hb. reflexivity. }
+  split; [unfold r2; cbn [exec_item snd o_res do_act]; rewrite Hf1, Hb; reflexivity|].
+  split; [exact Hws|].
+  assert (Hh2 : g_height (img_of (fst r2)) = H + 1).
+  { unfold r2. cbn [exec_item fst img_of do_act]. rewrite Hf1, Hb. cbn [a_ws a_pre a_commit app].
+    rewrite apply_writes_cons, apply_writes_nil. apply aw_height. }
+  split; [exact Hh2|].
+  pose proof (restart_all c _ 0 Hwf Hu1) as HRA. cbv zeta in HRA. fold st1 in HRA.
+  rewrite <- (boot_item_any_init c st1 ic (@Some root 0) s' Hs1) in HRA. fold r2 in HRA.
+  destruct HRA as (v' & Hv' & Hcv & Hnw). exists v'. split; [exact Hv'|]. split; [exact Hcv|].
+  intros sq' e' Hw'. rewrite (Hnw sq' e' Hw'), Hh2. f_equal. lia.
+Qed.
